@@ -10,13 +10,16 @@
 (*  Api{call,env,op} ApiReply{call,env,op,code,st}  MAccept{tasks}         *)
 (*  Hook{point,task,env}  MUpdate{task,state,reason}  MMessage{task,event} *)
 (*  MKill{task}  MSubscribe{fid,assigned}  MReconcile  MStreamDropped      *)
-(*  CoreKilled  MGateReached{point}  Snapshot{envs,roster,alive}           *)
+(*  CoreKilled  MGateReached{point,task}  MGateReleased{point,kind}        *)
+(*  Snapshot{envs,roster,alive}                                            *)
 (*  Poll{env,st,reached}  Quiesced{alive}  End                             *)
 (*                                                                         *)
 (* Strict part: every line must be the Restart action it stands for, taken *)
 (* from the model state reached so far; steps of the core that leave no    *)
 (* line (CoreStart, the SUBSCRIBE itself, StoreFid, RefreshOnReconcile,    *)
-(* RosterRemove, EnvError; Lock and RosterAppend when the core runs as a   *)
+(* the sending of a reconciliation KILL - MKill is its arrival at the      *)
+(* master, a held KILL released with "drop" its loss -, RosterRemove /     *)
+(* RosterRead / RosterWrite, EnvError; Lock and RosterAppend when the core runs as a   *)
 (* child process, i.e. without hook records) are taken eagerly, decided by  *)
 (* the line that follows. Snapshot / Poll / Quiesced / Fid lines compare   *)
 (* the recorded projection with the model state. A mismatch prints DRIFT   *)
@@ -30,10 +33,14 @@
 (*  NoOrphans       after a restart, once the new core has reconciled (and  *)
 (*                  re-reconciled if its stream was dropped) and as long   *)
 (*                  as no environment has been requested of it, the master *)
-(*                  has no live task left (Quiesced lines)                  *)
+(*                  has no live task left (Quiesced lines); detail: the     *)
+(*                  fault before, the survivors, has the core subscribed   *)
+(*                  again since the last fault / refused call               *)
 (*  NoFriendlyFire  no KILL call for a task locked by an environment       *)
 (*                  (hook records task.lock / task.unlock; for a child     *)
-(*                  core the last Snapshot)                                 *)
+(*                  core the last Snapshot); detail: the fault before, was *)
+(*                  the task ever in the roster (hook / GetTasks), is it   *)
+(*                  in the last roster listing                              *)
 (*  EnvStays        after a mere reconnection an environment that was      *)
 (*                  CONFIGURED / RUNNING (and had no request in progress)  *)
 (*                  is still so                                             *)
@@ -42,10 +49,10 @@ EXTENDS Restart, Integers, Sequences, Json, IOUtils
 
 Trace == ndJsonDeserialize(IOEnv.TRACE_FILE)
 
-VARIABLES l, scn, mode, child, cur, recheld, nviol,
-          m_fid, m_own, m_roster, m_phase, m_envst, m_req, m_fresh
-mvs == <<m_fid, m_own, m_roster, m_phase, m_envst, m_req, m_fresh>>
-tvars == <<l, scn, mode, child, cur, recheld, nviol, mvs>>
+VARIABLES l, scn, mode, child, cur, recheld, heldkill, nviol,
+          m_fid, m_own, m_roster, m_ever, m_phase, m_envst, m_req, m_fresh, m_nsub
+mvs == <<m_fid, m_own, m_roster, m_ever, m_phase, m_envst, m_req, m_fresh, m_nsub>>
+tvars == <<l, scn, mode, child, cur, recheld, heldkill, nviol, mvs>>
 
 Line == Trace[l]
 Ev == Line.ev
@@ -87,9 +94,10 @@ SaysError(e) ==
   \/ Ev = "Snapshot" /\ EnvObs(e) \in {"ERROR", "GONE"}
   \/ Ev = "Poll" /\ Line.env = e /\ Line.st \in {"ERROR", "GONE"}
   \/ Ev = "ApiReply" /\ Line.env = e /\ ReplyFailed
+\* (a KILL for a task the model has dead already comes from somebody else: the pre-deployment cleanup of another request)
 KillLineFor(e) ==
-  \/ Ev = "MKill" /\ Line.task \in etasks[e]
-  \/ Ev = "MGateReached" /\ Line.point = "KILL"
+  \/ Ev = "MKill" /\ Line.task \in etasks[e] /\ Alive(Line.task)
+  \/ Ev = "MGateReached" /\ Line.point = "KILL" /\ Line.task \in etasks[e] /\ Alive(Line.task)
 
 H1 == child /\ \E e \in Envs : env[e] = "launched"
 H2 == child /\ \E e \in Envs : env[e] = "locked"
@@ -98,9 +106,14 @@ H4 == Ev = "MSubscribe" /\ ~up
 H5 == Ev = "MSubscribe" /\ up /\ conn = "down"
 RecLine == Ev = "MReconcile" \/ (Ev = "MGateReached" /\ Line.point = "RECONCILE")
 H6 == RecLine /\ up /\ conn = "subd"
-H7 == \E e \in Envs : env[e] = "releasing" /\ KillLineFor(e)
+H7 == \E e \in Envs : env[e] \in {"releasing", "rewriting"} /\ KillLineFor(e)
 H8 == \E e \in Envs : SaysError(e) /\ ENABLED EnvError(e)
-HiddenEnabled == H1 \/ H2 \/ H3 \/ H4 \/ H5 \/ H6 \/ H7 \/ H8
+H9 == \E t \in rcv : KillCond(t)
+\* a SUBSCRIBE from a core that still had its stream: the HTTP client gave the subscription up after a failed call
+H10 == Ev = "MSubscribe" /\ up /\ conn = "up" /\ owed
+HiddenEnabled == H1 \/ H2 \/ H3 \/ H4 \/ H5 \/ H6 \/ H7 \/ H8 \/ H9 \/ H10
+Rewrite(e) == IF env[e] = "rewriting" THEN RosterWrite(e)
+              ELSE IF Code_RosterRewriteNotAtomic THEN RosterRead(e) ELSE RosterRemove(e)
 Hidden ==
   IF H1 THEN Lock(TheEnvIn("launched"))
   ELSE IF H2 THEN RosterAppend(TheEnvIn("locked"))
@@ -108,8 +121,10 @@ Hidden ==
   ELSE IF H4 THEN CoreStart
   ELSE IF H5 THEN SubscribeBody
   ELSE IF H6 THEN StoreFid
-  ELSE IF H7 THEN RosterRemove(CHOOSE e \in Envs : env[e] = "releasing" /\ KillLineFor(e))
+  ELSE IF H7 THEN Rewrite(CHOOSE e \in Envs : env[e] \in {"releasing", "rewriting"} /\ KillLineFor(e))
   ELSE IF H8 THEN EnvError(CHOOSE e \in Envs : SaysError(e) /\ ENABLED EnvError(e))
+  ELSE IF H9 THEN KillOnReconcile(CHOOSE t \in rcv : KillCond(t))
+  ELSE IF H10 THEN DropConnection
   ELSE FALSE
 
 MApi ==
@@ -131,6 +146,9 @@ MHook ==
   /\ CASE Line.point = "task.lock" /\ Line.env \in Envs /\ env[Line.env] = "launched" -> Lock(Line.env)
        [] Line.point = "task.roster.appended" /\ EnvOfTask(Line.task) # NoEnv /\ env[EnvOfTask(Line.task)] = "locked" ->
             RosterAppend(EnvOfTask(Line.task))
+       \* (hook point at the entry of roster.updateTasks: the filtered copy has been taken, the write-back is next)
+       [] Line.point = "task.roster.update" /\ Code_RosterRewriteNotAtomic /\ (\E e \in Envs : env[e] = "releasing") ->
+            RosterRead(TheEnvIn("releasing"))
        [] OTHER -> Same
 MUpdateL ==
   /\ Ev = "MUpdate"
@@ -149,13 +167,19 @@ MGate ==
   /\ IF Line.point = "MESSAGE:CONFIGURE" /\ (\E e \in Envs : env[e] = "deployed")
        THEN ConfigureSend(TheEnvIn("deployed"))
        ELSE IF Line.point = "RECONCILE" THEN Reconcile ELSE Same
+\* a held KILL call refused by the master: if it is a reconciliation KILL of a live core, it is lost
+MGateRel ==
+  /\ Ev = "MGateReleased"
+  /\ IF Line.point = "KILL" /\ Line.kind \in {"drop", "swallow"} /\ up /\ heldkill \in kq
+       THEN (IF Line.kind = "drop" THEN KillRefused(heldkill) ELSE KillLost(heldkill)) ELSE Same
 MKillL ==
   /\ Ev = "MKill" /\ Line.task \in Tasks
   /\ LET t == Line.task
          e == EnvOfTask(t)
-     IN IF t \in rcv /\ KillCond(t) THEN KillOnReconcile(t)
+     IN IF t \in kq THEN KillArrives(t)
         ELSE IF e # NoEnv /\ env[e] = "killing" THEN KillSend(e)
-        ELSE e # NoEnv /\ env[e] = "done" /\ Same
+        \* (one more KILL for a task a teardown or a pre-deployment cleanup has already killed)
+        ELSE e # NoEnv /\ mt[t].st = "dead" /\ Same
 MSub == Ev = "MSubscribe" /\ Line.fid = sfid /\ Subscribed(Line.assigned)
 MRec == Ev = "MReconcile" /\ IF conn = "stored" THEN Reconcile ELSE recheld /\ Same
 MDrop == Ev = "MStreamDropped" /\ DropConnection
@@ -164,11 +188,16 @@ MSnap == Ev = "Snapshot" /\ SnapOK /\ Same
 MPoll == Ev = "Poll" /\ PollOK /\ Same
 MQuiesced == Ev = "Quiesced" /\ SetOf(Line.alive) = {t \in Tasks : Alive(t)} /\ Same
 MFid == Ev = "Fid" /\ Line.stored = store /\ Same
-MOther == Ev \notin {"Api", "ApiReply", "MAccept", "Hook", "MUpdate", "MMessage", "MGateReached", "MKill", "MSubscribe",
+\* the driver lets a teardown parked at the entry of roster.updateTasks go: its write-back
+MHookRel ==
+  /\ Ev = "GateReleased"
+  /\ IF Line.point = "task.roster.update" /\ (\E e \in Envs : env[e] = "rewriting")
+       THEN RosterWrite(TheEnvIn("rewriting")) ELSE Same
+MOther == Ev \notin {"GateReleased", "Api", "ApiReply", "MAccept", "Hook", "MUpdate", "MMessage", "MGateReached", "MGateReleased", "MKill", "MSubscribe",
                      "MReconcile", "MStreamDropped", "CoreKilled", "Snapshot", "Poll", "Quiesced", "Fid"} /\ Same
 
 MatchLine ==
-  \/ MApi \/ MApiReply \/ MAcceptL \/ MHook \/ MUpdateL \/ MMessageL \/ MGate \/ MKillL \/ MSub \/ MRec \/ MDrop
+  \/ MApi \/ MApiReply \/ MAcceptL \/ MHook \/ MHookRel \/ MUpdateL \/ MMessageL \/ MGate \/ MGateRel \/ MKillL \/ MSub \/ MRec \/ MDrop
   \/ MCrash \/ MSnap \/ MPoll \/ MQuiesced \/ MFid \/ MOther
 
 \* the state in which every scenario starts: one core, booted, registered as framework 1, reconciled
@@ -176,7 +205,8 @@ Booted ==
   /\ store' = 1 /\ mfw' = 1 /\ mstream' = 1 /\ mt' = [t \in Tasks |-> [st |-> "none", fw |-> 0]] /\ rq' = {}
   /\ up' = TRUE /\ life' = 1 /\ cfid' = 1 /\ conn' = "up" /\ sfid' = 1 /\ nsubl' = 1 /\ roster' = {}
   /\ lock' = [t \in Tasks |-> NoEnv] /\ pend' = [e \in Envs |-> {}] /\ env' = [e \in Envs |-> "none"]
-  /\ etasks' = [e \in Envs |-> {}] /\ rcv' = {} /\ killed' = {} /\ crashes' = 0 /\ drops' = 0
+  /\ etasks' = [e \in Envs |-> {}] /\ rcv' = {} /\ snap' = [e \in Envs |-> {}] /\ kq' = {} /\ owed' = FALSE
+  /\ killed' = {} /\ crashes' = 0 /\ drops' = 0 /\ lost' = 0
 
 ---------------------------------------------------------------------------
 \* monitor
@@ -187,47 +217,55 @@ SnapEnvs == [e \in {r.env : r \in SetOf(Line.envs)} |-> (CHOOSE r \in SetOf(Line
 
 Monitor ==
   CASE Ev = "Reset" ->
-         /\ m_fid' = 0 /\ m_own' = {} /\ m_roster' = {} /\ m_phase' = "steady" /\ m_envst' = <<>> /\ m_req' = {}
-         /\ m_fresh' = FALSE /\ nviol' = nviol
+         /\ m_fid' = 0 /\ m_own' = {} /\ m_roster' = {} /\ m_ever' = {} /\ m_phase' = "steady" /\ m_envst' = <<>> /\ m_req' = {}
+         /\ m_fresh' = FALSE /\ m_nsub' = 0 /\ nviol' = nviol
     [] Ev = "Fid" ->
          /\ m_fid' = IF m_fid = 0 /\ Len(Line.frameworks) = 1 THEN Line.frameworks[1] ELSE m_fid
          /\ nviol' = nviol
               + (IF m_fid = 0 THEN Soft("IdentityStored", Line.present /\ Line.stored \in SetOf(Line.frameworks),
                                         <<Line.stored, Line.frameworks>>)
                  ELSE Soft("IdentityStable", Line.stored = m_fid, <<Line.stored, m_fid>>))
-         /\ UNCHANGED <<m_own, m_roster, m_phase, m_envst, m_req, m_fresh>>
+         /\ UNCHANGED <<m_own, m_roster, m_ever, m_phase, m_envst, m_req, m_fresh, m_nsub>>
     [] Ev = "MSubscribe" ->
          /\ nviol' = nviol + Soft("SameIdentity", Line.fid = m_fid /\ Line.assigned = m_fid, <<Line.fid, Line.assigned, m_fid>>)
-         /\ UNCHANGED mvs
+         /\ m_nsub' = m_nsub + 1
+         /\ UNCHANGED <<m_fid, m_own, m_roster, m_ever, m_phase, m_envst, m_req, m_fresh>>
+    [] Ev = "MGateReleased" ->
+         \* a refused / swallowed call: from now on a new subscription (and reconciliation round) is due
+         /\ m_nsub' = IF Line.kind \in {"drop", "swallow"} THEN 0 ELSE m_nsub
+         /\ UNCHANGED <<m_fid, m_own, m_roster, m_ever, m_phase, m_envst, m_req, m_fresh, nviol>>
     [] Ev = "Hook" ->
          /\ m_own' = CASE Line.point = "task.lock" -> m_own \cup {<<Line.task, Line.env>>}
                        [] Line.point = "task.unlock" -> {p \in m_own : p[1] # Line.task}
                        [] OTHER -> m_own
          /\ m_roster' = IF Line.point = "task.roster.appended" THEN m_roster \cup {Line.task} ELSE m_roster
-         /\ UNCHANGED <<m_fid, m_phase, m_envst, m_req, m_fresh, nviol>>
+         /\ m_ever' = IF Line.point = "task.roster.appended" THEN m_ever \cup {Line.task} ELSE m_ever
+         /\ UNCHANGED <<m_fid, m_phase, m_envst, m_req, m_fresh, m_nsub, nviol>>
     [] Ev = "Api" ->
          /\ m_phase' = "steady"
          /\ m_own' = IF child /\ Line.call = "destroy" THEN {p \in m_own : p[2] # Line.env} ELSE m_own
          /\ m_req' = m_req \cup {Line.env}
          /\ m_fresh' = (m_fresh /\ Line.call # "create")
-         /\ UNCHANGED <<m_fid, m_roster, m_envst, nviol>>
+         /\ UNCHANGED <<m_fid, m_roster, m_ever, m_envst, m_nsub, nviol>>
     [] Ev = "ApiReply" ->
          /\ m_req' = m_req \ {Line.env}
-         /\ UNCHANGED <<m_fid, m_own, m_roster, m_phase, m_envst, m_fresh, nviol>>
+         /\ UNCHANGED <<m_fid, m_own, m_roster, m_ever, m_phase, m_envst, m_fresh, m_nsub, nviol>>
     [] Ev = "CoreKilled" ->
-         /\ m_phase' = "restart" /\ m_own' = {} /\ m_roster' = {} /\ m_envst' = <<>> /\ m_fresh' = TRUE
+         /\ m_phase' = "restart" /\ m_own' = {} /\ m_roster' = {} /\ m_ever' = {} /\ m_envst' = <<>> /\ m_fresh' = TRUE /\ m_nsub' = 0
          /\ UNCHANGED <<m_fid, m_req, nviol>>
     [] Ev = "MStreamDropped" ->
-         /\ m_phase' = "reconnect"
-         /\ UNCHANGED <<m_fid, m_own, m_roster, m_envst, m_req, m_fresh, nviol>>
+         /\ m_phase' = "reconnect" /\ m_nsub' = 0
+         /\ UNCHANGED <<m_fid, m_own, m_roster, m_ever, m_envst, m_req, m_fresh, nviol>>
     [] Ev = "MKill" ->
-         /\ nviol' = nviol + Soft("NoFriendlyFire", NoPairFor(Line.task), <<m_phase, Line.task \in m_roster, Line.task>>)
+         /\ nviol' = nviol + Soft("NoFriendlyFire", NoPairFor(Line.task),
+                                  <<m_phase, Line.task \in m_ever, Line.task, Line.task \in m_roster>>)
          /\ UNCHANGED mvs
     [] Ev = "Quiesced" ->
-         /\ nviol' = nviol + Soft("NoOrphans", m_fresh => Line.alive = <<>>, <<m_phase, Line.alive>>)
+         /\ nviol' = nviol + Soft("NoOrphans", m_fresh => Line.alive = <<>>, <<m_phase, Line.alive, m_nsub > 0>>)
          /\ UNCHANGED mvs
     [] Ev = "Snapshot" ->
          /\ m_roster' = {r.task : r \in SetOf(Line.roster)}
+         /\ m_ever' = m_ever \cup {r.task : r \in SetOf(Line.roster)}
          /\ m_own' = IF child THEN {<<r.task, r.owner>> : r \in {x \in SetOf(Line.roster) : x.locked}} ELSE m_own
          \* the states to be kept across a reconnection: those of the environments no request is working on
          /\ m_envst' = IF m_phase = "steady" THEN [e \in DOMAIN SnapEnvs \ m_req |-> SnapEnvs[e]] ELSE m_envst
@@ -236,7 +274,7 @@ Monitor ==
                    THEN Soft("EnvStays", \A e \in DOMAIN m_envst : Stable(m_envst[e]) =>
                                             (e \in DOMAIN SnapEnvs /\ SnapEnvs[e] = m_envst[e]), <<m_envst, SnapEnvs>>)
                    ELSE 0)
-         /\ UNCHANGED <<m_fid, m_phase, m_req, m_fresh>>
+         /\ UNCHANGED <<m_fid, m_phase, m_req, m_fresh, m_nsub>>
     [] Ev = "Poll" ->
          /\ nviol' = nviol
               + Soft("EnvStays", ~(m_phase = "reconnect" /\ Line.reached /\ Line.env \in DOMAIN m_envst /\ Stable(m_envst[Line.env])),
@@ -247,8 +285,8 @@ Monitor ==
 ---------------------------------------------------------------------------
 TraceInit ==
   /\ Init
-  /\ l = 1 /\ scn = -1 /\ mode = "lost" /\ child = FALSE /\ cur = NoEnv /\ recheld = FALSE /\ nviol = 0
-  /\ m_fid = 0 /\ m_own = {} /\ m_roster = {} /\ m_phase = "steady" /\ m_envst = <<>> /\ m_req = {} /\ m_fresh = FALSE
+  /\ l = 1 /\ scn = -1 /\ mode = "lost" /\ child = FALSE /\ cur = NoEnv /\ recheld = FALSE /\ heldkill = "" /\ nviol = 0
+  /\ m_fid = 0 /\ m_own = {} /\ m_roster = {} /\ m_ever = {} /\ m_phase = "steady" /\ m_envst = <<>> /\ m_req = {} /\ m_fresh = FALSE /\ m_nsub = 0
 
 Consume ==
   /\ l' = l + 1
@@ -256,6 +294,7 @@ Consume ==
   /\ scn' = IF Ev = "Reset" THEN Line.scn ELSE scn
   /\ child' = IF Ev = "Reset" THEN Line.model.child ELSE child
   /\ cur' = IF Ev = "Reset" THEN NoEnv ELSE IF Ev = "Api" /\ Line.call = "create" THEN Line.env ELSE cur
+  /\ heldkill' = IF Ev = "MGateReached" /\ Line.point = "KILL" THEN Line.task ELSE IF Ev = "Reset" THEN "" ELSE heldkill
   /\ recheld' = IF Ev = "MGateReached" /\ Line.point = "RECONCILE" THEN TRUE
                 ELSE IF Ev \in {"MReconcile", "Reset"} THEN FALSE ELSE recheld
   /\ IF Ev = "Reset" THEN Booted /\ mode' = "ok"
